@@ -182,6 +182,12 @@ def fmtJ (x : M Fmt) : Json :=
 
 end C10J
 
+def sameRes (a b : M TFld) : Bool :=
+  match a, b with
+  | .ok x, .ok y => decide (x = y)
+  | .error _, .error _ => true
+  | _, _ => false
+
 open C10J in
 /-- driver ops of property C10 -/
 def c10 (op : String) (j : Json) : Option (R Json) :=
@@ -203,8 +209,8 @@ def c10 (op : String) (j : Json) : Option (R Json) :=
       -- model's own store, and vs the spec `loaded f`
       let f ← tfldOf (← fld j "field")
       let h ← h5fileOf (← fld j "file")
-      pure (Json.mkObj [("rt_eq_load", .bool (decide (h5Load (h5Save f) = h5Load h))),
-        ("load_eq_loaded", .bool (decide (h5Load h = .ok (loaded f)))),
+      pure (Json.mkObj [("rt_eq_load", .bool (sameRes (h5Load (h5Save f)) (h5Load h))),
+        ("load_eq_loaded", .bool (sameRes (h5Load h) (.ok (loaded f)))),
         ("store_eq", .bool (decide (h5Save f = h)))])
   | "loaded" => some do
       let f ← tfldOf (← fld j "field")
